@@ -3,6 +3,8 @@
 Top-level postconditions are taken from the statement of C07; shapes and helper preconditions
 from the code and its call sites.
 """
+import numpy as np
+
 from pyvc import spec as S
 from pyvc.arr import SymArr, havoc_array, new_array
 from pyvc.contract import Contract, register
